@@ -204,6 +204,102 @@ fn attr_raw(e: &embedded_sdmmc::DirEntry) -> u8 {
     a
 }
 
+
+// ---- internal state, recovered from the derived Debug text of VolumeManager (no hook needed) ----
+fn after<'a>(s: &'a str, key: &str) -> Option<&'a str> {
+    s.find(key).map(|i| &s[i + key.len()..])
+}
+fn until<'a>(s: &'a str, delims: &[char]) -> &'a str {
+    let end = s.find(|c: char| delims.contains(&c)).unwrap_or(s.len());
+    &s[..end]
+}
+fn hexnum(s: &str) -> Option<u64> {
+    u64::from_str_radix(s.trim().trim_start_matches("0x"), 16).ok()
+}
+fn cluster_txt(s: &str) -> Option<u64> {
+    // "ClusterId(ROOT    )" / "ClusterId(0000001f)"
+    let inner = until(after(s, "ClusterId(")?, &[')']).trim();
+    Some(match inner {
+        "INVALID" => 0xFFFF_FFF6,
+        "BAD" => 0xFFFF_FFF7,
+        "EMPTY" => 0,
+        "ROOT" => 0xFFFF_FFFC,
+        "EOF" => 0xFFFF_FFFF,
+        x => u64::from_str_radix(x, 16).ok()?,
+    })
+}
+fn opt_num(s: &str) -> Option<String> {
+    // "None, ..." | "Some(123), ..." | "Some(ClusterId(..)), ..."
+    let s = s.trim_start();
+    if s.starts_with("None") {
+        Some("-".into())
+    } else if s.starts_with("Some(ClusterId(") {
+        cluster_txt(s).map(|x| x.to_string())
+    } else if s.starts_with("Some(BlockIdx(") {
+        Some(until(after(s, "Some(BlockIdx(")?, &[')']).to_string())
+    } else if s.starts_with("Some(") {
+        Some(until(after(s, "Some(")?, &[')']).to_string())
+    } else {
+        None
+    }
+}
+fn ts_txt(s: &str) -> Option<String> {
+    // "Timestamp(2001-02-03 04:05:06)"
+    let t = until(after(s, "Timestamp(")?, &[')']);
+    let p: Vec<&str> = t.split(|c| c == '-' || c == ' ' || c == ':').collect();
+    if p.len() != 6 { return None; }
+    let y: i64 = p[0].parse().ok()?;
+    let mo: i64 = p[1].parse().ok()?;
+    let d: i64 = p[2].parse().ok()?;
+    Some(format!("{}-{}-{}-{}-{}-{}", y - 1970, mo - 1, d - 1, p[3].parse::<i64>().ok()?, p[4].parse::<i64>().ok()?, p[5].parse::<i64>().ok()?))
+}
+fn int_line(dbg: &str) -> Option<String> {
+    let next_id = until(after(dbg, "next_id: ")?, &[' ', '}']).to_string();
+    let tag = opt_num(after(dbg, "block_idx: ")?)?;
+    let vols_txt = after(dbg, "open_volumes: [")?;
+    let dirs_pos = vols_txt.find("open_dirs: [")?;
+    let (vols_txt, rest) = vols_txt.split_at(dirs_pos);
+    let files_pos = rest.find("open_files: [")?;
+    let (dirs_txt, files_txt) = rest.split_at(files_pos);
+    let mut vols = Vec::new();
+    for chunk in vols_txt.split("VolumeInfo {").skip(1) {
+        let id = hexnum(until(after(chunk, "raw_volume: RawVolume(")?, &[')']))?;
+        let idx = until(after(chunk, "idx: VolumeIdx(")?, &[')']);
+        let free = opt_num(after(chunk, "free_clusters_count: ")?)?;
+        let next = opt_num(after(chunk, "next_free_cluster: ")?)?;
+        vols.push(format!("{}:{}:{}:{}", id, idx, free, next));
+    }
+    let mut dirs = Vec::new();
+    for chunk in dirs_txt.split("DirectoryInfo {").skip(1) {
+        let id = hexnum(until(after(chunk, "raw_directory: RawDirectory(")?, &[')']))?;
+        let vol = hexnum(until(after(chunk, "raw_volume: RawVolume(")?, &[')']))?;
+        let cl = cluster_txt(after(chunk, "cluster: ")?)?;
+        dirs.push(format!("{}:{}:{}", id, vol, cl));
+    }
+    let mut files = Vec::new();
+    for chunk in files_txt.split("FileInfo {").skip(1) {
+        let id = hexnum(until(after(chunk, "raw_file: RawFile(")?, &[')']))?;
+        let vol = hexnum(until(after(chunk, "raw_volume: RawVolume(")?, &[')']))?;
+        let cc = after(chunk, "current_cluster: (")?;
+        let cur_off = until(cc, &[',']).to_string();
+        let cur_cl = cluster_txt(cc)?;
+        let off = until(after(chunk, "current_offset: ")?, &[',']).to_string();
+        let mode = match until(after(chunk, "mode: ")?, &[',']) {
+            "ReadOnly" => "RO", "ReadWriteAppend" => "RWA", "ReadWriteTruncate" => "RWT", "ReadWriteCreate" => "RWC",
+            "ReadWriteCreateOrTruncate" => "RWCT", "ReadWriteCreateOrAppend" => "RWCA", _ => return None,
+        };
+        let entry = after(chunk, "mtime: ")?;
+        let mtime = ts_txt(entry)?;
+        let ecl = cluster_txt(after(entry, "attributes: ")?)?;
+        let size = until(after(entry, "size: ")?, &[',']).to_string();
+        let eblk = until(after(entry, "entry_block: BlockIdx(")?, &[')']).to_string();
+        let eoff = until(after(entry, "entry_offset: ")?, &[' ', '}', ',']).to_string();
+        let dirty = if until(after(entry, "dirty: ")?, &[' ', '}', ',']) == "true" { 1 } else { 0 };
+        files.push(format!("{}:{}:{}:{}:{}:{}:{}:{}:{}:{}:{}:{}", id, vol, cur_off, cur_cl, off, mode, size, ecl, dirty, eblk, eoff, mtime));
+    }
+    Some(format!("id={} vols=[{}] dirs=[{}] files=[{}] tag={}", next_id, vols.join(";"), dirs.join(";"), files.join(";"), tag))
+}
+
 type VM<'a, const D: usize, const F: usize, const V: usize> = VolumeManager<&'a Dev, &'a Clock, D, F, V>;
 
 /// executes one op; returns (result text, callback lines, handle if any)
@@ -363,6 +459,10 @@ fn run<'a, const D: usize, const F: usize, const V: usize>(dev: &'a Dev, clock: 
             let b = vm.file_offset(h).map(|x| x.to_string()).unwrap_or("err".into());
             let c = vm.file_eof(h).map(|x| (x as u8).to_string()).unwrap_or("err".into());
             writeln!(out, "ST {} {} {} {} {}", n, sl, a, b, c).unwrap();
+        }
+        match int_line(&format!("{:?}", vm)) {
+            Some(l) => writeln!(out, "INT {} {}", n, l).unwrap(),
+            None => writeln!(out, "INT {} unparsed", n).unwrap(),
         }
     }
 }
